@@ -633,7 +633,7 @@ def enum_steps(cfg, rng):
 
 
 def shards(tier, seed):
-    n = 640 if tier == "quick" else 32000
+    n = 1600 if tier == "quick" else 32000
     specs = [{"kind": "sample", "seed": seed, "shard": i, "configs": n // NSHARDS, "steps": 60 if tier == "quick" else 200}
              for i in range(NSHARDS)]
     specs.append({"kind": "enum", "seed": seed, "stride": 8 if tier == "quick" else 1})
